@@ -259,7 +259,7 @@ macro_rules! block_harness {
             #[cfg(not(verif_mutant))]
             assert!(is_one_block_string_token(&out, len), "C16: multi-line string is emitted as exactly one block-string token");
             #[cfg(verif_mutant)]
-            assert!(len == s.n + 6, "mutant oracle (triple quotes never escaped): must be refuted");
+            assert!(!is_one_block_string_token(&out, len), "mutant oracle (negated): must be refuted");
             kani::cover!($known || (s.n == $n && s.chars[0] == '"'), "a quote inside the text");
             kani::cover!(!$known || s.chars[s.n - 1] == '\\', "text ending in a backslash");
             core::mem::forget(w);
@@ -271,60 +271,6 @@ block_harness!(print_string_block_n2_known_trailing_quote_backslash, 2, 14, true
 block_harness!(print_string_block_n3_outside_known, 3, 16, false);
 block_harness!(print_string_block_n3_known_trailing_quote_backslash, 3, 16, true);
 block_harness!(print_string_block_n4_outside_known, 4, 18, false);
-
-// experiments (not registered): isolate an unexplained `__rust_dealloc` check failure on the block path
-#[kani::proof]
-#[kani::stub(alloc::string::String::push, sink::string_push)]
-#[kani::stub(alloc::string::String::push_str, sink::string_push_str)]
-#[kani::stub(str::repeat, sink::str_repeat_1)]
-#[kani::stub(alloc::fmt::format, format_stub_u1)]
-#[kani::stub(str::find, strlex::str_find_char)]
-#[kani::unwind(12)]
-fn exp_block_no_oracle_n2() {
-    let s = SymStr::any(2, &ALPHA_BLOCK);
-    kani::assume(has_lf(&s));
-    let mut w = Collect { native: String::new() };
-    print_string(s.as_str(), &mut w);
-    kani::cover!(true, "reached");
-    core::mem::forget(w);
-}
-#[kani::proof]
-#[kani::stub(alloc::string::String::push, sink::string_push)]
-#[kani::stub(alloc::string::String::push_str, sink::string_push_str)]
-#[kani::stub(str::repeat, sink::str_repeat_1)]
-#[kani::stub(alloc::fmt::format, format_stub_u1)]
-#[kani::stub(str::find, strlex::str_find_char)]
-#[kani::unwind(12)]
-fn exp_block_concrete() {
-    let mut w = Collect { native: String::new() };
-    print_string("a\n", &mut w);
-    kani::cover!(true, "reached");
-    core::mem::forget(w);
-}
-#[kani::proof]
-#[kani::stub(alloc::string::String::push, sink::string_push)]
-#[kani::stub(alloc::string::String::push_str, sink::string_push_str)]
-#[kani::stub(str::repeat, sink::str_repeat_1)]
-#[kani::stub(alloc::fmt::format, format_stub_u1)]
-#[kani::stub(str::find, strlex::str_find_char)]
-#[kani::unwind(12)]
-fn exp_block_table_n2() {
-    let n: usize = kani::any();
-    kani::assume(n >= 1 && n <= 2);
-    let mut bytes = [b'a'; 2];
-    let mut i = 0;
-    while i < 2 {
-        let k: u8 = kani::any();
-        kani::assume(k < 3);
-        bytes[i] = [b'\n', b'"', b'a'][k as usize];
-        i += 1;
-    }
-    let text = unsafe { core::str::from_utf8_unchecked(&bytes[..n]) };
-    let mut w = Collect { native: String::new() };
-    print_string(text, &mut w);
-    kani::cover!(true, "reached");
-    core::mem::forget(w);
-}
 
 // Control characters through the REAL `format!("\\u{{{:x}}}", ..)` (no format stub): one character
 // drawn from a few control characters whose hexadecimal and decimal spellings differ.
